@@ -198,7 +198,10 @@ def parse_tokens(sch, t, toks, p, enum_names=False):
             raise BadShape("expected float, got %s" % tk)
         import struct
         d = struct.unpack("<d", struct.pack("<Q", int(tk[1:], 16)))[0]
-        return (glue.f32_to_bits(d) if k == "f32" else glue.f64_to_bits(d)), p + 1
+        try:
+            return (glue.f32_to_bits(d) if k == "f32" else glue.f64_to_bits(d)), p + 1
+        except (OverflowError, struct.error):
+            raise BadShape("value %r does not fit the field's float type" % d)
     if k == "str":
         if tk[0] != "s":
             raise BadShape("expected string, got %s" % tk)
